@@ -338,6 +338,37 @@ def run(chk):
                         chk.holds("R2", inst, "template %r" % text[:70], short(f["loc"]))
                 except ev.Inconclusive as x:
                     chk.inconclusive("R2", inst, str(x), short(f["loc"]))
+            # R2 (unit-argument forms): same templates with the abbreviation of the *given* unit
+            if q.kind == "quantity" and q.unit is not None:
+                units = [e["n"] for e in F.enums[q.unit]["enumerators"]]
+                std = TT.standard.get(q.unit)
+                others = [u for u in units if u != std]
+                if others:
+                    x = others[(chk.seed + len(name)) % len(others)]
+                    xabbr = dict((k[2], v) for k, v in (TT.rows("abbr", q.unit) or []) if isinstance(k, tuple)).get(x)
+                    for kind in ("Print", "JSON", "XML", "YAML"):
+                        ms = quant.find_method(F, name, kind, lambda f: len(f["params"]) == 1)
+                        if not ms:
+                            continue
+                        f = ms[0]
+                        inst = "%s::%s(%s)" % (name, kind, x)
+                        n2 += 1
+                        try:
+                            E = ev.Evaluator(F)
+                            E.hooks["PhQ::Print"] = print_hook
+                            res, _, _ = E.run_symbolic(f, this_prefix="self", concrete={0: ("enum", q.unit, x)})
+                            r = E.rv(res)
+                            if len(nums_of(r)) != len(slots):
+                                chk.violated("R2", inst, "prints %d numbers for %d components" % (len(nums_of(r)), len(slots)), short(f["loc"]))
+                                continue
+                            text = render(r)
+                            why = check_format(kind, text, names, xabbr) if "\x00" not in text else "template contains a non-number hole"
+                            if why:
+                                chk.violated("R2", inst, why, short(f["loc"]))
+                            else:
+                                chk.holds("R2", inst, "template %r" % text[:70], short(f["loc"]))
+                        except ev.Inconclusive as x2:
+                            chk.inconclusive("R2", inst, str(x2), short(f["loc"]))
             # R3 operator<<
             ops = [f for f in F.by_qname.get("PhQ::operator<<", []) if "body" in f and len(f["params"]) == 2 and strip_cvref(F.T(f["params"][1]["t"])) == name]
             inst = "operator<<(ostream, %s)" % name
